@@ -43,6 +43,7 @@ def Item.leafy : Item → Bool
   | .act _ a => a.leafy
   | .go _ ns => ns.all (fun n => n.k.leafy)
   | .aux _ _ _ => true
+  | .under _ => true
 
 def Frame.leafy (f : Frame) : Bool := f.auxes.isEmpty && f.items.all Item.leafy
 
@@ -269,6 +270,7 @@ structure Rest (ι : String → String) (u : Nat) (s0 s : St) : Prop where
   work : s.presolvables = s0.presolvables ∧ s.resolvables = s0.resolvables
   shares : ∀ p, (∀ k, ι k ≠ p) → s.read p = s0.read p
   uids : s.objs.map (·.uid) = s0.objs.map (·.uid)
+  now : s.now = s0.now
 
 structure Sim (ι : String → String) (name : String) (P : List Frame) (first : String) (u : Nat) (base : List String)
     (s0 : St) (s : St) (l : LSt) : Prop where
@@ -336,6 +338,7 @@ theorem acts_mapRef (g : String → String) (f : Frame) (c : Ctxt) :
   | cons it rest ih =>
     cases it with
     | aux a b d => simpa [List.filterMap_cons, Item.mapRef] using ih
+    | under n => simpa [List.filterMap_cons, Item.mapRef] using ih
     | go far ns => simpa [List.filterMap_cons, Item.mapRef] using ih
     | act c' a =>
       by_cases h : c' = c
@@ -351,6 +354,7 @@ theorem preacts_mapRef (g : String → String) (f : Frame) :
   | cons it rest ih =>
     cases it with
     | aux a b d => simpa [List.filterMap_cons, Item.mapRef] using ih
+    | under n => simpa [List.filterMap_cons, Item.mapRef] using ih
     | go far ns => simp [List.filterMap_cons, Item.mapRef, Pre.mapRef, ih]
     | act c' a =>
       cases c' <;> simp [List.filterMap_cons, Item.mapRef, Pre.mapRef, ih]
@@ -376,7 +380,7 @@ theorem Sim.emit {ι name P first u base s0} {s : St} {l : LSt} (h : Sim ι name
     (e : String × Ctxt × String) : Sim ι name P first u base s0 (s.emit (render name e)) { l with ev := e :: l.ev } :=
   { obj := h.obj, mem := h.mem, now := h.now, out := by simp [h.out]
     rest := { others := h.rest.others, self := h.rest.self, names := h.rest.names, nextUid := h.rest.nextUid,
-              work := h.rest.work, shares := h.rest.shares, uids := h.rest.uids } }
+              work := h.rest.work, shares := h.rest.shares, uids := h.rest.uids, now := h.rest.now } }
 
 theorem Sim.write {ι name P first u base s0} {s : St} {l : LSt} (h : Sim ι name P first u base s0 s l)
     (hinj : ∀ a b, ι a = ι b → a = b) (k : String) (v : Int) :
@@ -392,7 +396,7 @@ theorem Sim.write {ι name P first u base s0} {s : St} {l : LSt} (h : Sim ι nam
     out := h.out
     rest :=
       { others := h.rest.others, self := h.rest.self, names := h.rest.names, nextUid := h.rest.nextUid,
-        work := h.rest.work, uids := h.rest.uids
+        work := h.rest.work, uids := h.rest.uids, now := h.rest.now
         shares := fun p hp => by
           have : p ≠ ι k := fun e => hp k e.symm
           rw [read_write_other _ _ _ _ this]
@@ -414,7 +418,7 @@ theorem Sim.modCtl {ι name P first u base s0} {s : St} {l : LSt} (h : Sim ι na
                 injection ho' with ho'
                 subst ho'
                 rw [e0]
-              names := h.rest.names, nextUid := h.rest.nextUid, work := h.rest.work
+              names := h.rest.names, nextUid := h.rest.nextUid, work := h.rest.work, now := h.rest.now
               shares := h.rest.shares
               uids := by
                 rw [← h.rest.uids]
@@ -512,6 +516,7 @@ theorem acts_leafy (f : Frame) (hf : f.leafy = true) (c : Ctxt) : ∀ a ∈ f.ac
   have := hf.2 it hit
   cases it with
   | aux x y z => simp at hm
+  | under n => simp at hm
   | go far ns => simp at hm
   | act c' a' =>
     simp at hm
@@ -960,6 +965,7 @@ theorem preacts_leafy (f : Frame) (hf : f.leafy = true) : ∀ p ∈ f.preacts, p
   have := hf.2 it hit
   cases it with
   | aux x y z => simp at hm
+  | under n => simp at hm
   | go far ns =>
     simp at hm
     subst hm
